@@ -3,8 +3,9 @@ SPECIFICATION Spec
 CONSTANTS
   MaxN = 2
   MaxMsgs = 2
-  PlFrom = 1
-  PlTo = 100
+  Pls = {1, 2, 25, 33}
   Lims = {0, 1, 2, 3}
-INVARIANTS Thm_BatchingIndependent Thm_LimitMeaning Thm_SeriesIdentity
+  Flushes = {0, 1, 2}
+  Caps = {0, 1}
+INVARIANTS Thm_BatchingIndependent Thm_LimitMeaning Thm_SeriesIdentity Thm_FlushInvisible Thm_GetterCut
 CHECK_DEADLOCK FALSE
